@@ -67,8 +67,19 @@ def returns_of(F, cg, fn, amap=None, prefix=(), depth=0):
                 if len(vs) == 1:
                     v = vs[0]
             if v is None:
-                continue
+                if rv['k'] == 'aggregate' and rv.get('variant') == 'Err':
+                    continue          # an explicit Err(..) exit is the long form of `?`; error exits are the error-constructor call sites
+                # a computed result: what is returned (structurally) is part of the skeleton too
+                v = 'value ' + inline.subst(_rv_desc(B, rv), amap)
             out.append((v, sorted(set(prefix) | inline.fact_strings(sf, canon_fact, amap))))
+    for i, t in B.calls():
+        if t['dest']['l'] == 0 and not t['dest']['p']:
+            c = t.get('resolved') or t.get('callee') or callee_of(t) or ''
+            if c.split('::')[-1] == 'from_residual':
+                continue          # the error arm of `?` (whether it is reachable at all depends on the callee: NeverErr pruning)
+            if not (depth < 3 and c != fn and inline.is_new_helper(F, c)):
+                here = sorted(set(prefix) | inline.fact_strings(structural_facts(B, i), canon_fact, amap))
+                out.append(('value ' + inline.subst(skey_call(B, t), amap), here))
     if depth < 3:
         for i, t in B.calls():
             if t['dest']['l'] == 0 and not t['dest']['p']:
@@ -97,7 +108,9 @@ def _collect(F, cg, fns):
         for _B, i, t, facts, _inl in inline.walk_calls(F, cg, fn, structural_facts, canon_fact):
             c = (t.get('callee') or callee_of(t) or '')
             short = c.split('::')[-1]
-            if TRIVIAL.match(short) or pure_query(_B, t):
+            if c.startswith('<std::io::Error>::'):
+                short = 'io::Error::' + short          # an error exit, not a plain constructor
+            elif TRIVIAL.match(short) or pure_query(_B, t):
                 continue
             res.setdefault('%s|call %s' % (fn, short), []).append(facts)
             # the operands handed to the callee (first three, structurally described; parameters of an inlined helper replaced by the actual arguments)
@@ -113,7 +126,10 @@ def _collect(F, cg, fns):
             elif rv['k'] == 'aggregate' and rv.get('agg') == 'adt' and rv.get('fields') and len(rv['ops']) > 1 and not str(rv.get('adt', '')).startswith(('std::', 'core::', 'alloc::')):
                 res.setdefault('%s|build %s' % (fn, str(rv.get('adt', '')).split('::')[-1]), []).append([_rv_desc(B, rv)])
         for v, facts in returns_of(F, cg, fn):
-            res.setdefault('%s|return %s' % (fn, v), []).append(facts)
+            if v.startswith('value '):
+                res.setdefault('%s|result' % fn, []).append([v[6:]] + facts)
+            else:
+                res.setdefault('%s|return %s' % (fn, v), []).append(facts)
     for k in res:
         res[k] = sorted(res[k])
     return res
@@ -140,7 +156,8 @@ def _backend(n):
 # which functions' branching skeleton each property freezes (by root function; closures follow their root)
 GROUP_PRED = {
     'C01': lambda n: (n.startswith(MEMFS_ALL) and not n.startswith('<sys::fs::memfs::file::')) or n.startswith('<errors::'),
-    'C02': lambda n: (n.startswith(('<sys::fs::stdfs::',)) and ' as sys::fs::vfs::VirtualFileSystem>' not in n) or n.startswith('<errors::'),
+    'C02': lambda n: (n.startswith(('<sys::fs::stdfs::',)) and ' as sys::fs::vfs::VirtualFileSystem>' not in n) or n.startswith('<errors::')
+    or (n.startswith(MEMFS_ALL) and not n.startswith('<sys::fs::memfs::file::')),
     'C13': lambda n: n.startswith(('<sys::fs::vfs::Vfs>::', '<sys::fs::vfs::Vfs as std::', '<sys::fs::entry::VfsEntry as std::')),
     'C03': lambda n: n.startswith((M_, MV, '<sys::fs::memfs::vfs::MemfsGuard', '<sys::fs::memfs::vfs::MemfsInner', '<sys::fs::memfs::entry::MemfsEntry>')),
     'C06': lambda n: _backend(n) and _item(n) in FILE_IO,
@@ -151,6 +168,8 @@ GROUP_PRED = {
     or n.startswith('sys::fs::entry::Entry::'),
     'C11': lambda n: (n.startswith(('<sys::fs::memfs::', '<sys::fs::stdfs::')) and _item(n) in PERM and ' as sys::fs::vfs::VirtualFileSystem>' not in n.replace(MV, ''))
     or n.startswith(('sys::fs::chmod::', '<sys::fs::chmod::', 'sys::fs::chown::', '<sys::fs::chown::')),
+    'C12': lambda n: n.startswith(MEMFS_ALL) or n in ('<T as core::iter::IteratorExt>::drop', '<T as core::iter::IteratorExt>::slice', 'sys::fs::path::clean',
+                                                      'sys::fs::path::relative', 'sys::fs::path::trim_protocol'),
     'C15': lambda n: n.startswith('sys::fs::path::') and _item(n) not in ('expand', 'home_dir'),
     'C17': lambda n: n in ('sys::fs::path::expand', 'sys::fs::path::home_dir'),
     'C18': lambda n: n.startswith(('sys::user::', '<sys::user::User')) or (_backend(n) and _item(n) == 'config_dir'),
@@ -159,13 +178,29 @@ GROUP_PRED = {
 }
 
 
-def group_functions(F, pid):
+def group_functions(F, pid, cg=None):
+    """the functions a property's skeleton covers: those selected by GROUP_PRED plus (with a call graph) every crate function they can reach — the
+    property's dependency cone — and the closures of all of them"""
     pred = GROUP_PRED[pid]
-    out = []
+    out = set()
     for n, b in F.bodies.items():
         root = b.get('root') if b['kind'] == 'Closure' else n
-        if root and pred(root):
-            out.append(n)
+        if root and pred(root) and b['kind'] != 'Promoted':
+            out.add(n)
+    if cg is not None:
+        work = list(out)
+        while work:
+            x = work.pop()
+            if x not in F.bodies:
+                continue
+            for e in cg.edges(x):
+                t = e.target
+                if t in F.bodies and t not in out and F.bodies[t]['kind'] != 'Promoted' and not t.startswith(('<testing::', 'testing::')):
+                    out.add(t)
+                    work.append(t)
+        for n, b in F.bodies.items():
+            if b['kind'] == 'Closure' and b.get('root') in out:
+                out.add(n)
     return sorted(out)
 
 
@@ -173,6 +208,8 @@ def site_guard(rep, F, cg, table, fns, rule='SITE-GUARD'):
     rep.rule(rule, 'in the listed functions every call of an effectful or fallible callee and every literal-kind return (None / Some / Ok / bool) is reached under '
              'exactly the branch facts frozen in tables/site_guards.json (structural descriptions of the dominating bool / enum tests and their outcomes): the '
              'branching skeleton of the algorithm agrees with the confirmed instance (one obligation per function; differing sites are listed)')
+    if hasattr(cg, 'prune_never_err'):
+        cg = type(cg)(F)          # the skeleton is always taken from unpruned control-flow graphs (as at freeze time), whatever earlier rules pruned
     fns = list(fns)
     have = set(fns)
     # closures that appeared inside a frozen function belong to it
@@ -208,7 +245,7 @@ def site_guard(rep, F, cg, table, fns, rule='SITE-GUARD'):
         if diffs and ti:
             mine = {k.split('|', 1)[1]: cur[k] for k in byfn.get(f, []) if k in cur}
             it = ti.split('::')[-1]
-            if set(mine) <= {'call %s' % it, 'args %s' % it} and mine.get('call %s' % it) == [[]]:
+            if set(mine) <= {'call %s' % it, 'args %s' % it, 'result'} and mine.get('call %s' % it) == [[]]:
                 diffs = []          # became a plain forwarder to a sibling implementation of the same trait method (frozen itself)
         short = f.replace('sys::fs::', '')
         where = '%s:%d' % (b['_file'], b['_line']) if b else ''
